@@ -83,6 +83,13 @@ def oracle(c, r):
     if c["rank"] and o["rank"] != O.rank(m, c["D"]): why.append("rank wrong")
     if c["gon"] and (o["gon"] != O.gonality(m) or o.get("gon_s") != O.gonality(m)): why.append("gonality wrong")
     if not any(o["qred"] == O.qreduce(m, c["D"], q) for q in common.min_vertices(c["D"])): why.append("reduced divisor is not a reduced representative")
+    if "greedy" in o:       # reference greedy run from the definition: borrow at an indebted vertex, budget 10*|V| moves (the number of moves does not depend on the order)
+        n = len(m); E = list(c["D"]); moves = 0
+        while min(E) < 0 and moves < 10 * n:
+            v = next(i for i in range(n) if E[i] < 0); moves += 1
+            for x in range(n): E[x] -= m[v][x]
+            E[v] += sum(m[v])
+        if o["greedy"] != (min(E) >= 0): why.append("greedy solver's verdict %s, a reference run within the budget gives %s" % (o["greedy"], min(E) >= 0))
     return {"violates": bool(why), "why": why, "note": "two presentations of one input that answer differently are themselves the replay"}
 def nontrivial(cases): return len({str((c["G"]["edges"], c["D"])) for c in cases if any(k > 1 for _, _, k in c["G"]["edges"]) or c["D"].count(min(c["D"])) > 1})
 def distribution(cases): return {"inputs": len(cases) // NV, "presentations_per_input": NV, "with_rank": sum(1 for c in cases if c["rank"]) // NV, "with_gonality": sum(1 for c in cases if c["gon"]) // NV}
